@@ -35,6 +35,21 @@ def cases(tier, rng):
             cs.append(mk(c, n, rng.below(1000), sizes, "both"))
         if thorough and c in ("tcp", "wss", "stdio"):
             cs.append(mk(c, 5 << 20, 5, [65536, 4097], "both"))
+    # the websocket byte-stream adapter alone, over a real websocket: write sizes around the message size (32768) against read buffers
+    # smaller and larger than a message (the multiplexer reads 8-octet headers, then payloads; bufio reads 4096 at a time)
+    edge = [1, 2, 8, 4095, 4096, 4097, 32640, 32767, 32768, 32769, 40000, 65535, 65536, 65537, 100000]
+    for _ in range(400 if thorough else 60):
+        ws = [rng.choice(edge) if rng.chance(2, 3) else rng.range(1, 70000) for _ in range(rng.range(1, 5))]
+        total = sum(ws)
+        rs = []
+        got = 0
+        while got < total and len(rs) < 400:
+            n = rng.choice([1, 8, 100, 4096, 4097, 32768, 32769, 65536]) if rng.chance(3, 4) else rng.range(1, 70000)
+            rs.append(n)
+            got += n          # (an upper bound of what this read can return)
+        rs += [rng.choice([1, 4096, 65536]) for _ in range(rng.range(0, 12))]
+        line = "c01ws %d %s %d %s" % (len(ws), " ".join(map(str, ws)), len(rs), " ".join(map(str, rs)))
+        cs.append({"line": line, "key": line, "tags": {"carrier": "ws-adapter", "n": total, "dir": "adapter"}})
     # run on the implementation only: a physical session older than the handshake's time limit (1 s here) when the connection is
     # opened, and the copy loops' logging variant (SOCKETACE_PIPE_DEBUG=1): multi-block transfers with further data after the first block
     for c in (CARRIERS if thorough else ["tcp", "tcp-starttls", "kcp", "ws"]):
@@ -57,6 +72,10 @@ def oracle(case, impl):
     p = impl.split()
     if not p or p[0] in ("panic", "died", "timeout", "harness-error"):
         return [("crash;carrier=" + t["carrier"], "transfer scenario crashed: " + impl[:150])]
+    if t["carrier"] == "ws-adapter":
+        if "err" in p or p[-1] != "1":
+            return [("ws-adapter-not-a-prefix", "the websocket adapter handed out octets that are not a prefix of what was written: %s -> %s" % (case["line"][:200], impl[:200]))]
+        return []
     if p[0] in ("setup", "connect"):
         return [("no-connection;carrier=" + t["carrier"], "no logical connection could be opened: " + impl[:100])]
     out = []
